@@ -126,7 +126,9 @@ def main():
         tb = traceback.extract_tb(e.__traceback__)
         inner = tb[-1] if tb else None
         from_repo = inner is not None and os.path.realpath(inner.filename).startswith(os.path.realpath(common.REPO) + os.sep)
-        if from_repo:
+        if isinstance(e, common.TieBroken):
+            ctx.unproved.append({"kind": "correspondence", "component": "implementation trace not representable in the model's vocabulary", "detail": str(e)[:400]})
+        elif from_repo:
             chain = [f"{os.path.relpath(fr.filename, common.REPO) if fr.filename.startswith(common.REPO) else os.path.basename(fr.filename)}:{fr.lineno} {fr.name}" for fr in tb[-6:]]
             ctx.violations.append({"what": f"the implementation raised {type(e).__name__}: {str(e)[:200]} on a generated valid input", "layer": "-",
                                    "traceback": chain, "sig": {"clause": "implementation-raised", "exception": type(e).__name__, "where": inner.name}})
